@@ -7,3 +7,5 @@ CHECKS.update({"C12": ("loader", "run_c12"), "C13": ("loader", "run_c13")})
 CHECKS.update({"C15": ("loader", "run_c15")})
 CHECKS.update({"C04": ("hilbert", "run_c04")})
 CHECKS.update({"C14": ("loader", "run_c14")})
+CHECKS.update({"C02": ("arrays", "run_c02"), "C07": ("arrays", "run_c07"), "C08": ("arrays", "run_c08"), "C10": ("arrays", "run_c10")})
+CHECKS.update({"C09": ("vectors", "run_c09")})
